@@ -660,7 +660,7 @@ class Summariser:
             cur = self.expr(st.target, events)
             val = ("op", BINOPS[type(st.op)], cur, self.expr(st.value, events))
             self.assign(st.target, val, events, st, aug=BINOPS[type(st.op)])
-        elif isinstance(st, ast.For):
+        elif isinstance(st, (ast.For, ast.While)):
             self.loop(st, events)
         elif isinstance(st, ast.Assert):
             events.append(Assert(self.expr(st.test, events), st.lineno))
@@ -731,8 +731,10 @@ class Summariser:
         return fields
 
     def loop(self, st, events):
-        it = self.expr(st.iter, events)
+        is_while = isinstance(st, ast.While)
         lid = self.ids.next()
+        if not is_while:
+            it = self.expr(st.iter, events)
         names, fields = self.assigned_names(st.body)
         fields |= self.called_self_methods(st.body)
         env0, f0 = dict(self.env), dict(self.fields)
@@ -741,7 +743,11 @@ class Summariser:
             self.env[n] = ("mu", lid, n)
         for f in fields:
             self.fields[f] = ("mu", lid, "self." + f)
-        self.bind_target(st.target, ("elem", lid))
+        if is_while:
+            # the loop condition is evaluated on the loop-carried state; iteration count unknown
+            it = ("while", self.expr(st.test, events))
+        else:
+            self.bind_target(st.target, ("elem", lid))
         old_loops = self.loops
         self.loops = self.loops + (lid,)
         ev, term, ret = self.block(st.body)
@@ -758,7 +764,7 @@ class Summariser:
             carried[n] = (env0[n], self.env.get(n))
         for f in fields:
             carried["self." + f] = (f0.get(f, ("field0", f)), self.fields.get(f))
-        events.append(Loop(lid, it, ast.unparse(st.target), ev, carried, st.lineno, False))
+        events.append(Loop(lid, it, "" if is_while else ast.unparse(st.target), ev, carried, st.lineno, False))
         for n in names:
             if n in carried_n:
                 self.env[n] = ("eta", lid, n)
